@@ -76,4 +76,9 @@ META = {
         text="Exploration: generated oracle life cycles (bond, add-delegate, re-delegate, governance removal within and beyond the cap, slashing for missed oracle-set confirmations, unbonding period, withdrawal early / on time / twice) are compared with a reference model of the registry and of every oracle's stake; an oracle may go offline only for an object it left unconfirmed for the signed window since it joined.",
         note="Slashing decisions are checked for oracle sets (the object kind this machine creates); batches and bridge calls are covered by C07 for halting only.",
     ),
+    "C14": dict(
+        technique="property-based testing (rapid) over generated source portfolios, target kinds, governance involvement at every stage, signature variants and later activity; oracle = acceptance specification + portfolio union / emptiness / totals / crisis invariants on the real staking, distribution, bank and gov keepers",
+        text="Exploration: each generated case builds a real portfolio (delegations, unbonding and redelegation entries that share completion slices with another delegator, accrued rewards), involves source or target in a proposal in its deposit / voting / ended stage, migrates with one of five signature shapes and then lets time pass through the real staking end blocker; acceptance must follow the stated conditions and an accepted migration must move everything once.",
+        note="Public keys are set on accounts directly (as after a first transaction).",
+    ),
 }
